@@ -8,6 +8,16 @@ VERIF = os.path.dirname(os.path.dirname(os.path.abspath(__file__)))
 
 # id -> (category, technique, level text, level note, design ref)
 CHECKS = {
+    "C01": ("exploration",
+            "property-based testing (rapid): typed requests encoded by an independent BER encoder, field-by-field comparison with the handler's decoded message, over TCP pipelines and (for volume) through the decode hook",
+            "Generated typed requests of all seven operations (arbitrary byte strings, message IDs up to 2^31-1, go-ldap-round-trippable filters from a recursive grammar, 0..4 attributes/changes/values, 0..4 controls of every kind) are encoded by the harness's own codec, sent pipelined to a live server whose every route records a deep copy of what Get*Message returns, and compared field by field (filter semantically via go-ldap CompileFilter); unsupported operations and bind versions != 3 must reach no handler. Exploration: strong on swapped/dropped/truncated fields, cannot show absence.",
+            "trusts the independent encoder (wire) to produce what the typed value says (cross-checked by go-ldap for filters) and go-ldap's CompileFilter for filter equivalence; VerifMessageInfo hook is used to read the extended-operation name/message ID which the public API does not expose",
+            "DESIGN.md §4 C01"),
+    "C04": ("exploration",
+            "property-based testing (rapid): response programs (constructor x documented options x setter sequences) executed in real handlers, frames parsed by an independent strict BER/LDAP parser and compared with a last-value-wins model; go-ldap as second reader",
+            "Every generated response program is executed inside a handler on a real pipelined request with a random message ID; each frame received is parsed strictly by the harness's own codec and compared with the model (message ID, protocolOp tag, result code, matched DN, diagnostic message, entry DN, attributes in AddAttribute order / WithAttributes as a set, controls), and re-read by go-ldap's GetLDAPError / DecodeControl. Exploration over a large generated space; no absence claim.",
+            "trusts the strict parser (wire) and the model of documented options (doc comments of request.go); values nobody set ('Unused' placeholders) are not compared",
+            "DESIGN.md §4 C04"),
     "C02": ("exploration",
             "exhaustive structured BER mutation (all single- and double-point mutants of every canonical request) + property-based mutation chains (rapid) + coverage-guided native fuzzing, all through the server's own decode path; end-to-end re-confirmation over TCP",
             "The complete single-point mutant set of every canonical request (7 operations x every control kind, control values opened up) in both tiers and the complete double-point set (about 5*10^7 streams) in the thorough tier are pushed through (*conn).readRequest via the verif hook with no recover in between; any panic is a violation fingerprinted by panicking gldap function + panic class. rapid adds mutation chains over generated requests, go test -fuzz adds coverage-guided byte streams, and a TCP part re-confirms against a live server by looking for the connection-level recover's log record. Exhaustive only over the stated mutation space; beyond it exploration.",
